@@ -284,15 +284,18 @@ CHECKS = {
         "technique": "bounded model checking of the compiled Rust (Kani/CBMC): every byte cut of a written stream, symbolic payload bytes, checksum oracle",
         "level_text": ("Bounded model checking of torn-write atomicity of the WAL byte stream: three entries written by the real writer into "
                        "zero-prefilled blocks; for EVERY cut offset c the image 'first c bytes, zeros after' is recovered by the real reader "
-                       "driven like the replay loop: exactly the entries completed before the cut are delivered, never a partial one. "
+                       "driven like the replay loop: exactly the entries completed before the cut are delivered, never a partial one; and for every "
+                       "cut between two frames a real writer resumes there with a new entry, after which exactly the completed entries and the "
+                       "new one are recovered (orphan frames never delivered or spliced). "
                        "Crashes inside file creation/removal or GC, the writer resuming behind the torn tail (RollingReader::into_writer) "
                        "and usability after recovery are file-layer / MultiRecordLog glue and not claimed."),
         "level_note": "trusted: kani-compiler, CBMC, CaDiCaL; ideal-checksum oracle for the torn frame; effects reach the zero-prefilled file in program order (process-crash model)",
         "filters": ["c02_"],
-        "quick": {"harnesses": [("16", "c02_torn_q*")], "jobs": 14, "timeout": 1500},
-        "thorough": {"harnesses": [("16", "c02_torn_*")], "jobs": 16, "timeout": 3000},
+        "quick": {"harnesses": [("16", "c02_torn_q*"), ("16", "c02_resume_q*")], "jobs": 14, "timeout": 1500},
+        "thorough": {"harnesses": [("16", "c02_torn_*"), ("16", "c02_resume_*")], "jobs": 16, "timeout": 3000},
         "rule": "case = (length triple, cut offset), every offset 0..=end; non-trivial = the cut falls inside a frame payload; counted from the symex log",
-        "samples": ["c02_torn_q_a_c036: lengths (5,20,1), cuts 36..41 (inside the Middle frame of entry 1)"],
+        "samples": ["c02_torn_q_a_c036: lengths (5,20,1), cuts 36..41 (inside the Middle frame of entry 1)",
+                    "c02_resume_q_a_n3_f0: crash after frame 0/1/2 of (5,20,1) (frame 1 = orphan First frame of entry 1), then a real writer resumes there with a new 3-byte entry; recover all"],
         "functions": STREAM_FUNCS,
         "bounds": {"quick": {"B": 16, "triple": "(5,20,1): 73 cuts"}, "thorough": {"triples": "+ (9,0,30), (1,40,3), (2,3,25), (16,10,0)"}},
         "outside": ["crash during create_file / set_len / remove_file / GC (std::fs)", "RollingReader::into_writer resuming behind the torn tail", "behaviour of further operations after recovery; second crash", "in-flight truncate / delete_queue"],
